@@ -31,6 +31,12 @@ type Meta struct {
 	Workers int
 	// ChunkSize overrides the number of cases per worker process (0 = auto).
 	ChunkSize int
+	// HangKey, when set, makes a worker that stops making progress inside a case (the parent's watchdog has to kill it)
+	// a violation with this witness key instead of an inconclusive run: for properties whose subject is blocking
+	// behaviour, a process in which no goroutine can run any more is the failure itself.
+	HangKey string
+	// WorkerTimeoutSec overrides the parent's per-worker watchdog (default 1200 s).
+	WorkerTimeoutSec int
 	// Exhaustive is set when the thorough tier enumerates a finite space completely.
 	Exhaustive func(tier string) bool
 }
